@@ -11,15 +11,23 @@
 //!    nested 0-3 deep, badly laid out and surrounded by badly laid out code; `skip::macros`,
 //!    `skip_macro_invocations`, `skip::attributes`; out-of-line modules; whole-file opt-outs in every
 //!    emit mode (decision table of the model vs real runs).
+//!    Skip-marked items and statements directly inside `macro_rules!` bodies (the second reader of the
+//!    skipped ranges: `MacroBranch::rewrite` re-indents every line outside a range), formatted twice;
+//!    the correspondence `skip.mbody` of that re-indentation; `skip::macros` at three nesting levels;
+//!    byte-exactness of opted-out files with BOM / CRLF / no final newline in every emit mode.
 //! 3. enumerated probes of inputs known to be dirty on the pinned tree.
 //!
-//! "The node" of a skip attribute, for the oracle: the source text from the first token after the
+//! "The node" of a skip attribute, for the oracle: for items and statements the source text from the
+//! node's first outer attribute or doc comment (`full`; `visit_item` / `visit_stmt` copy that span) and,
+//! for every node kind, the source text from the first token after the
 //! node's outer attributes to the node's last token (items: through the closing brace or `;`; a
 //! statement: through its `;`; a field, variant or match arm: without the separating comma, which is
 //! list punctuation and is normalised; an expression: the expression).  It starts and ends with a
 //! non-blank character (the code pushes `snippet.trim()`, `pushSkipped_untrimmed_counterexample`), is
 //! LF-only and carries an identifier that occurs nowhere else in the program, so "occurs exactly
-//! once" is meaningful.  The attribute itself is not part of the node.
+//! once" is meaningful.  For impl / trait items, fields, variants, arms and expressions the attributes
+//! are not part of the node (tests/target/issue-4398.rs pins that the attributes of a skipped impl item
+//! are laid out by the missing-text path).
 use std::path::{Path, PathBuf};
 use std::process::Command;
 use std::time::Duration;
@@ -940,6 +948,8 @@ const NON_SPELLINGS: &[&str] = &["#[allow(rustfmt_skip)]", "#[cfg_attr(rustfmt, 
 struct SkipProgram {
     src: String,
     node: String,
+    /// items and statements: the text from the first attribute (doc comment) of the node to its last token
+    full: Option<String>,
     kind: String,
     hole: Hole,
     chain: Vec<&'static str>,
@@ -958,6 +968,67 @@ fn junk_indent(rng: &mut Rng) -> String {
         2 => "\t".to_string(),
         _ => "    ".to_string(),
     }
+}
+
+/// (text, needs a line break after it, is a doc comment, is a plain comment)
+const EXTRA_ATTRS: &[(&str, bool, bool, bool)] = &[
+    ("#[allow( dead_code )]", false, false, false),
+    ("#[cfg( test )]", false, false, false),
+    ("#[cfg(any(feature = \"small-tables\",\n                  feature = \"tiny-tables\"))]", false, false, false),
+    ("#[cfg_attr(feature = \"a\",\n   allow( unused ))]", false, false, false),
+    ("#[doc  =  \"x  y\"]", false, false, false),
+    ("/// doc   comment", true, true, false),
+    ("/// Layout:\n        ///     row 0: 1 2\n   ///     row 1: 3 4", true, true, false),
+    ("/** block  doc */", false, true, false),
+    ("// plain   comment", true, false, true),
+];
+
+/// The attributes of a skipped node, from the first one to just before the node's first token: the skip
+/// spelling among 0..3 further attributes (one-line, multi-line, doc-comment lines, doc attribute) and
+/// possibly a plain comment line, each on its own badly indented line or on the line of the next one.
+/// `single_line`: everything on the line of the first attribute (no doc comments, no multi-line attribute),
+/// then the node on the same or on the next line.
+fn attr_block(rng: &mut Rng, spelling: &str, can_doc: bool, single_line: bool) -> String {
+    if spelling.starts_with("///") {
+        // (a look-alike control that is a doc comment)
+        return format!("{}{}", spelling, junk_indent(rng));
+    }
+    let mut parts: Vec<(String, bool)> = vec![];
+    let n = *rng.pick(&[0usize, 0, 1, 1, 2, 3]);
+    let mut plain_seen = false;
+    for _ in 0..n {
+        let (t, nl, doc, plain) = *rng.pick(EXTRA_ATTRS);
+        if (doc && !can_doc) || (plain && plain_seen) { continue; }
+        if single_line && (doc || plain || t.contains('\n')) { continue; }
+        plain_seen |= plain;
+        parts.push((t.to_string(), nl));
+    }
+    let at = rng.below(parts.len() + 1);
+    parts.insert(at, (spelling.to_string(), false));
+    if parts[0].0.starts_with("// ") {
+        // a comment before the first attribute is not part of the node
+        parts.swap(0, at);
+    }
+    let mut block = String::new();
+    for (t, nl) in &parts {
+        block.push_str(t);
+        if single_line {
+            block.push(' ');
+        } else if *nl {
+            block.push_str(*rng.pick(&["\n", "\n", "  \n"]));
+            block.push_str(&junk_indent(rng));
+        } else {
+            let sep = *rng.pick(&["\n", "\n", "\n", "\n", " ", "  \n", "\n\n"]);
+            block.push_str(sep);
+            if sep != " " { block.push_str(&junk_indent(rng)); }
+        }
+    }
+    if single_line && rng.chance(2, 3) {
+        block.pop();
+        block.push('\n');
+        block.push_str(&junk_indent(rng));
+    }
+    block
 }
 
 fn chain_to(rng: &mut Rng, target: Hole, depth: usize) -> Option<Vec<usize>> {
@@ -1040,24 +1111,37 @@ fn skip_program(rng: &mut Rng, counter: &mut usize, node_ix: usize, depth: usize
         bad.push(t);
         before_id = Some(bid);
     }
-    // the attributes: the skip spelling among 0-2 others, on their own lines or on the node's line
-    let others = ["#[allow( dead_code )]", "#[cfg( test )]", "/// doc  comment\n"];
-    let mut attrs: Vec<String> = vec![];
-    for _ in 0..*rng.pick(&[0usize, 0, 0, 1, 1, 2]) {
-        let o = *rng.pick(&others);
-        if o.starts_with("///") && !can_doc { continue; }
-        attrs.push(o.to_string());
-    }
-    let at = rng.below(attrs.len() + 1);
-    attrs.insert(at, spelling.to_string());
-    let ind = junk_indent(rng);
-    src.push_str(&ind);
-    for a in &attrs {
-        src.push_str(a);
-        if !a.ends_with('\n') {
-            src.push_str(*rng.pick(&["\n", "\n", "\n", " ", "  \n", "\n\n"]));
-        }
+    // the attributes: the skip spelling among 0-2 others, on their own lines or on the node's line; for items,
+    // statements and impl / trait items: among 0-3 further attribute lines, multi-line attributes, doc-comment
+    // lines, a plain comment line (`attr_block`)
+    let mut full = None;
+    if matches!(hole, Hole::Item | Hole::Stmt | Hole::ImplItem | Hole::TraitItem) && (accepted || !spelling.starts_with("///")) {
+        let block = attr_block(rng, spelling, hole != Hole::Stmt, false);
         src.push_str(&junk_indent(rng));
+        if matches!(hole, Hole::Item | Hole::Stmt) {
+            // visit_item / visit_stmt copy the whole span, attributes included, as it is written
+            full = Some(format!("{}{}", block, node));
+        }
+        src.push_str(&block);
+    } else {
+        let others = ["#[allow( dead_code )]", "#[cfg( test )]", "/// doc  comment\n"];
+        let mut attrs: Vec<String> = vec![];
+        for _ in 0..*rng.pick(&[0usize, 0, 0, 1, 1, 2]) {
+            let o = *rng.pick(&others);
+            if o.starts_with("///") && !can_doc { continue; }
+            attrs.push(o.to_string());
+        }
+        let at = rng.below(attrs.len() + 1);
+        attrs.insert(at, spelling.to_string());
+        let ind = junk_indent(rng);
+        src.push_str(&ind);
+        for a in &attrs {
+            src.push_str(a);
+            if !a.ends_with('\n') {
+                src.push_str(*rng.pick(&["\n", "\n", "\n", " ", "  \n", "\n\n"]));
+            }
+            src.push_str(&junk_indent(rng));
+        }
     }
     src.push_str(&node);
     src.push_str(sep);
@@ -1081,7 +1165,7 @@ fn skip_program(rng: &mut Rng, counter: &mut usize, node_ix: usize, depth: usize
         src.push_str(&format!("{}\n", t));
         bad.push(t);
     }
-    Some(SkipProgram { src, node, kind: kind.to_string(), hole, chain: chain.iter().map(|c| CONTAINERS[*c].0).collect(), spelling: spelling.to_string(), honoured_expected: accepted, before_id, after_id, bad_neighbours: bad })
+    Some(SkipProgram { src, node, full, kind: kind.to_string(), hole, chain: chain.iter().map(|c| CONTAINERS[*c].0).collect(), spelling: spelling.to_string(), honoured_expected: accepted, before_id, after_id, bad_neighbours: bad })
 }
 
 fn e2e_config(rng: &mut Rng, thorough: bool) -> Vec<(String, String)> {
@@ -1109,7 +1193,7 @@ fn part_e2e_nodes(o: &mut Outcome, rng: &mut Rng, thorough: bool) {
     let mut counter = 0usize;
     let mut progs: Vec<(SkipProgram, Vec<(String, String)>)> = vec![];
     // every node kind x depth 0..3 (x repetitions with different spellings / surroundings / options)
-    let reps = if thorough { 150 } else { 8 };
+    let reps = if thorough { 150 } else { 16 };
     for ix in 0..NODES.len() {
         for depth in 0..=3 {
             for _ in 0..reps {
@@ -1174,6 +1258,13 @@ fn part_e2e_nodes(o: &mut Outcome, rng: &mut Rng, thorough: bool) {
                 }
             }
         }
+        if let Some(full) = &pr.full {
+            o.count(&format!("e2e:full:{:?}:attr-lines={}", pr.hole, full[..full.len() - pr.node.len()].matches('\n').count().min(4)));
+            o.direct_evals += 1;
+            if count_occ(&out, full) != 1 {
+                problems.push(format!("the node's bytes WITH its attributes and doc comments (from the first attribute to the last token) occur {} times in the output", count_occ(&out, full)));
+            }
+        }
         let unformatted: Vec<&String> = pr.bad_neighbours.iter().filter(|t| out.contains(t.as_str())).collect();
         if !unformatted.is_empty() {
             // surroundings left as written: the run did not format at all (not C04's statement, but the
@@ -1186,10 +1277,378 @@ fn part_e2e_nodes(o: &mut Outcome, rng: &mut Rng, thorough: bool) {
             }
         }
         if !problems.is_empty() {
-            o.direct_failures.push(json!({"sig": format!("c04:skipped-node-not-verbatim:{}", tag), "what": problems.join("; "), "node": pr.node, "attr": pr.spelling, "chain": pr.chain, "config": cfg_text(cfg), "src": pr.src, "out": r.out}));
+            o.direct_failures.push(json!({"sig": format!("c04:skipped-node-not-verbatim:{}", tag), "what": problems.join("; "), "node": pr.node, "node_with_attributes": pr.full, "attr": pr.spelling, "chain": pr.chain, "config": cfg_text(cfg), "src": pr.src, "out": r.out}));
         }
         if o.samples.len() < 3 {
             o.sample(json!({"e2e": tag, "chain": pr.chain, "attr": pr.spelling, "config": cfg_text(cfg), "src": pr.src}));
+        }
+    }
+}
+
+// ------------------------------------------------------------------------------------------------
+// skipped nodes directly inside `macro_rules!` bodies that rustfmt formats
+//
+// A macro arm's body is formatted by a nested formatter that starts at indentation 0 and the arm's
+// indentation is then put in front of every line EXCEPT the lines of a recorded skipped range
+// (`MacroBranch::rewrite`, model RF/Model/MacroBody.lean): the second reader of `skipped_range`.  The
+// skipped node's bytes, attribute and doc-comment lines included, survive iff the recorded range covers
+// its verbatim copy.  Only nodes reached by the nested formatter's TOP-LEVEL visitor are generated
+// (directly in the body, in inline modules, in the bodies of fns of the body): the ranges of nested
+// visitors (impl / trait bodies, closures, inner blocks) are lost or unshifted on the pinned tree
+// (probe C04-macro-body-nested-visitor), and a skipped STATEMENT keeps only its first attribute line
+// out of the range on purpose (tests/target/issue-3105.rs), so that further attribute lines of a
+// statement are re-indented (probe C04-macro-body-stmt-attrs): statements get one attribute line.
+
+struct BodyProgram {
+    src: String,
+    /// from the first attribute of the skipped node to its last token
+    full: String,
+    kind: String,
+    shape: String,
+    accepted: bool,
+    /// badly laid out neighbours inside the same macro body: when they all survive the body was not
+    /// formatted at all (it does not fit, format_macro_bodies=false ...): the case is vacuous
+    body_bad: Vec<String>,
+    cfg: Vec<(String, String)>,
+}
+
+fn body_nodes(hole: Hole) -> Vec<usize> {
+    (0..NODES.len()).filter(|i| NODES[*i].1 == hole && NODES[*i].2.lines().all(|l| l.len() <= 60) && NODES[*i].0 != "macro_rules").collect()
+}
+
+fn macro_body_program(rng: &mut Rng, counter: &mut usize, thorough: bool, accepted: bool) -> Option<BodyProgram> {
+    let mut fresh = |prefix: &str| { *counter += 1; format!("{}{}x", prefix, counter) };
+    let stmt_body = rng.chance(1, 2);
+    // wrappers inside the body that the same visitor walks: inline modules (item bodies), then possibly a fn
+    let mut wrappers: Vec<&str> = vec![];
+    if !stmt_body {
+        for _ in 0..*rng.pick(&[0usize, 0, 0, 1, 1, 2]) { wrappers.push("mod"); }
+    }
+    if rng.chance(1, 5) { wrappers.push("fn"); }
+    let in_stmt_position = stmt_body || wrappers.last() == Some(&"fn");
+    let node_hole = if in_stmt_position && rng.chance(2, 3) { Hole::Stmt } else { Hole::Item };
+    let ix = *rng.pick(&body_nodes(node_hole));
+    let (kind, _, text) = NODES[ix];
+    let id = fresh("zq");
+    // sometimes the node's name is a macro variable
+    let var = accepted && matches!(kind, "fn" | "struct" | "enum" | "const" | "static" | "let" | "unit-struct" | "tuple-struct" | "union" | "type") && rng.chance(1, 3);
+    let node = if var { text.replace("ID", &format!("${}", id)) } else { text.replace("ID", &id) };
+    let spelling = if accepted { rng.pick(SPELLINGS).0 } else { *rng.pick(&["#[allow(rustfmt_skip)]", "#[cfg_attr(rustfmt, allow(unused))]", "#[clippy::skip]"]) };
+    // a statement: every attribute on the first line; an item: attribute lines, multi-line attributes, doc lines
+    // (a macro call with attributes in statement position is a statement, StmtKind::MacCall, not an item)
+    let as_stmt = node_hole == Hole::Stmt || (in_stmt_position && kind.starts_with("macro-item"));
+    let block = attr_block(rng, spelling, !as_stmt, as_stmt);
+    let full = format!("{}{}", block, node);
+    // the body
+    let (nb, _) = neighbour(if stmt_body { Hole::Stmt } else { Hole::Item });
+    let mut body = String::new();
+    let mut body_bad = vec![];
+    let n_before = rng.below(3);
+    let n_after = if n_before == 0 { rng.range(1, 3) } else { rng.below(3) };
+    for _ in 0..n_before {
+        let t = nb.replace("NB", &fresh("nb"));
+        body.push_str(&format!("{}{}{}", junk_indent(rng), t, *rng.pick(&["\n", "\n\n\n", "   \n"])));
+        body_bad.push(t);
+    }
+    let mut closers = vec![];
+    for (k, w) in wrappers.iter().enumerate() {
+        match *w {
+            "mod" => { body.push_str(&format!("{}mod  w{}  {{\n", junk_indent(rng), k)); closers.push("}"); }
+            _ => { body.push_str(&format!("{}fn  w{}( ) {{\n", junk_indent(rng), k)); closers.push("}"); }
+        }
+    }
+    if !wrappers.is_empty() && rng.chance(1, 2) {
+        let (nb2, _) = neighbour(if wrappers.last() == Some(&"fn") { Hole::Stmt } else { Hole::Item });
+        let t = nb2.replace("NB", &fresh("nb"));
+        body.push_str(&format!("{}{}\n", junk_indent(rng), t));
+        body_bad.push(t);
+    }
+    body.push_str(&junk_indent(rng));
+    body.push_str(&full);
+    body.push_str(*rng.pick(&["\n", "\n", "   \n", "\n\n\n"]));
+    for c in closers.iter().rev() {
+        body.push_str(&format!("{}{}\n", junk_indent(rng), c));
+    }
+    for _ in 0..n_after {
+        let t = nb.replace("NB", &fresh("nb"));
+        body.push_str(&format!("{}{}\n", junk_indent(rng), t));
+        body_bad.push(t);
+    }
+    // the definition
+    let mname = fresh("mr");
+    let matcher = if var { format!("( ${}:ident )", id) } else { rng.pick(&["( )", "( $a:expr )", "( $a:expr , $b:ty )", "( x )"]).to_string() };
+    let decl2 = !var && rng.chance(1, 8);
+    let mut def = String::new();
+    if decl2 {
+        def.push_str(&format!("{}macro  {}{} {{\n{}{}}}\n", junk_indent(rng), mname, matcher, body, junk_indent(rng)));
+    } else {
+        def.push_str(&format!("{}macro_rules!  {} {{\n", junk_indent(rng), mname));
+        let other_arm = |rng: &mut Rng, k: usize| format!("{}( other{} ) => {{ fn  o{}( ) {{ }} }} ;\n", junk_indent(rng), k, k);
+        if rng.chance(1, 4) { let a = other_arm(rng, 1); def.push_str(&a); }
+        def.push_str(&format!("{}{} => {{\n{}{}}}{}\n", junk_indent(rng), matcher, body, junk_indent(rng), *rng.pick(&[" ;", ";", ""])));
+        if rng.chance(1, 4) { let a = other_arm(rng, 2); def.push_str(&a); }
+        def.push_str(&format!("{}}}\n", junk_indent(rng)));
+    }
+    // around the definition: anything (the body's formatter is a fresh one whatever the definition sits in)
+    let target = *rng.pick(&[Hole::Item, Hole::Item, Hole::Stmt]);
+    let depth = rng.range(if target == Hole::Item { 0 } else { 1 }, 4);
+    let chain = chain_to(rng, target, depth)?;
+    let src = render_chain(rng, &chain, None, &def, "");
+    let mut cfg: Vec<(String, String)> = vec![("max_width".into(), rng.pick(&[100usize, 100, 137, 200]).to_string())];
+    if thorough && rng.chance(1, 2) { cfg[0].1 = rng.range(90, 200).to_string(); }
+    let n = *rng.pick(&[0usize, 0, 1, 1, 2]);
+    for (k, v) in random_option_set(rng, n) {
+        if k == "max_width" || k == "format_macro_bodies" { continue; }
+        cfg.push((k, v));
+    }
+    let shape = format!("{}{} body, wrappers {:?}, node in {} position, definition in {:?}{}", if decl2 { "macro 2.0, " } else { "" }, if stmt_body { "statement" } else { "item" }, wrappers, if in_stmt_position { "statement" } else { "item" }, chain.iter().map(|c| CONTAINERS[*c].0).collect::<Vec<_>>(), if var { ", name is a macro variable" } else { "" });
+    Some(BodyProgram { src, full, kind: format!("{:?}/{}", node_hole, kind), shape, accepted, body_bad, cfg })
+}
+
+fn part_e2e_macro_bodies(o: &mut Outcome, rng: &mut Rng, thorough: bool) {
+    let mut counter = 700000usize;
+    let mut progs = vec![];
+    let n = if thorough { 60000 } else { 6000 };
+    for i in 0..n {
+        if let Some(p) = macro_body_program(rng, &mut counter, thorough, i % 12 != 11) { progs.push(p); }
+    }
+    let limit = Duration::from_secs(if thorough { 20 } else { 10 });
+    let jobs1: Vec<Job> = progs.iter().map(|p| Job { src: p.src.clone(), cfg: p.cfg.clone(), file_lines: None }).collect();
+    let res1 = pool::run_jobs(&jobs1, jobs(), limit);
+    // the second pass: the output of the first as input
+    let jobs2: Vec<Job> = progs.iter().zip(res1.iter()).map(|(p, r)| Job { src: if r.status == Status::Ok { canon_newlines(&r.out, &p.cfg) } else { String::new() }, cfg: p.cfg.clone(), file_lines: None }).collect();
+    let res2 = pool::run_jobs(&jobs2, jobs(), limit);
+    for ((pr, r1), r2) in progs.iter().zip(res1.iter()).zip(res2.iter()) {
+        match &r1.status {
+            Status::Timeout => { o.count("mbody:timeout"); continue; }
+            Status::Ok => {}
+            other => {
+                o.direct_failures.push(json!({"sig": format!("c04:e2e-run-failed:macro-body:{}", pr.kind), "what": format!("the formatter did not finish on a generated program: {:?}", other), "src": pr.src, "config": cfg_text(&pr.cfg)}));
+                continue;
+            }
+        }
+        if r1.flags[1] || r1.out.is_empty() {
+            o.count(&format!("mbody:not-parsed:{}", pr.kind));
+            o.sample(json!({"not_parsed": pr.src}));
+            continue;
+        }
+        let out1 = canon_newlines(&r1.out, &pr.cfg);
+        let survivors = pr.body_bad.iter().filter(|t| out1.contains(t.as_str())).count();
+        if survivors == pr.body_bad.len() {
+            // the body was left as it is: nothing of it was formatted (it does not fit, or cannot be parsed
+            // as items / statements after the variables are replaced): vacuous; what the fallback does to a
+            // skipped node's trailing blanks is probe C04-macro-def-fallback
+            o.count("mbody:body-not-formatted(vacuous)");
+            if std::env::var("C04_DEBUG").is_ok() { eprintln!("VACUOUS [{}] {}\n--- src\n{}\n--- out\n{}\n", cfg_text(&pr.cfg), pr.shape, pr.src, r1.out); }
+            continue;
+        }
+        o.direct_evals += 1;
+        let occ1 = count_occ(&out1, &pr.full);
+        if !pr.accepted {
+            o.count(if occ1 == 0 { "mbody:control:reformatted" } else { "mbody:control:unchanged" });
+            if occ1 != 0 {
+                o.direct_failures.push(json!({"sig": format!("c04:control-node-not-reformatted:macro-body:{}", pr.kind), "what": "a node carrying an attribute that is not a skip attribute was left as written inside a formatted macro body: the search would not notice a skip that is not honoured", "src": pr.src, "out": r1.out}));
+            }
+            continue;
+        }
+        o.direct_distinct += 1;
+        o.count(&format!("mbody:node:{}", pr.kind));
+        o.count(&format!("mbody:attr-lines={}", pr.full.lines().take_while(|l| { let t = l.trim_start(); t.starts_with('#') || t.starts_with("//") || t.starts_with("/*") || t.is_empty() || !t.contains("zq") }).count().min(6)));
+        let mut problems = vec![];
+        if occ1 != 1 {
+            problems.push(format!("first pass: the node's bytes (attributes and doc comments included) occur {} times in the output", occ1));
+        }
+        let mut out2 = String::new();
+        match &r2.status {
+            Status::Ok if !r2.flags[1] && !r2.out.is_empty() => {
+                out2 = canon_newlines(&r2.out, &pr.cfg);
+                o.direct_evals += 1;
+                let occ2 = count_occ(&out2, &pr.full);
+                if occ2 != 1 {
+                    problems.push(format!("second pass (the output formatted again): the node's bytes occur {} times", occ2));
+                }
+                o.count(if out2 == out1 { "mbody:second-pass:same-text" } else { "mbody:second-pass:text-changed" });
+            }
+            Status::Timeout => o.count("mbody:timeout"),
+            _ => o.count("mbody:second-pass:did-not-run"),
+        }
+        if !problems.is_empty() {
+            o.direct_failures.push(json!({"sig": format!("c04:skipped-node-in-macro-body-not-verbatim:{}", pr.kind), "what": problems.join("; "), "node_with_attributes": pr.full, "shape": pr.shape, "config": cfg_text(&pr.cfg), "src": pr.src, "out": r1.out, "out_second_pass": out2}));
+        }
+        if o.samples.len() < 4 {
+            o.sample(json!({"mbody": pr.kind, "shape": pr.shape, "config": cfg_text(&pr.cfg), "src": pr.src}));
+        }
+    }
+}
+
+/// correspondence of the re-indentation of a formatted macro body (RF/Model/MacroBody.lean, `rewriteTail`)
+/// with `MacroBranch::rewrite` on real definitions: the hook formats the body with the functions the code
+/// calls (`format_snippet` / `format_code_block`) and reports the snippet and its non-formatted ranges;
+/// the model's result for them must be what `MacroBranch::rewrite` returned.
+fn part_mbody_corr(o: &mut Outcome, rng: &mut Rng, thorough: bool) {
+    struct Case { src: String, cfg: Vec<(String, String)>, what: String }
+    let pieces_items: &[&str] = &[
+        "fn  a( x:u32 ) {   }",
+        "struct  S { a:u32,   b :u32 }",
+        "#[rustfmt::skip]\nfn  b( ) {   \n        let  x=[1 ,2] ;\n  }",
+        "  #[rustfmt::skip]\n      #[cfg(any(feature = \"a\",\n                  feature = \"b\"))]\n  /// doc\n  ///     more\n     pub fn  c( ) -> [u8; 4] {\n            [1, 2,\n             3, 4]\n        }",
+        "#[allow( unused )]\n#[rustfmt::skip]\nconst  T :[u8;2]=[1,\n   2] ;",
+        "const  S :&str=\"first line\n     second line\n  third\" ;",
+        "const  S2 :&str=\"wrapped \\\n     continued \\\n  end\" ;",
+        "/* a comment with \"a string\n   inside\n*/\nfn  d( ) { }",
+        "// \"quoted\n//    text\"\nfn  e( ) { }",
+        "mod  inner {\n#[rustfmt::skip]\n   fn  f( ) {  \n }\n fn  g( a:u32 ) { }\n}",
+        "impl  S {\n  #[rustfmt::skip]\n   fn  f( ) {  \n      1 ;\n }\n fn  g( a:u32 ) { }\n}",
+        "#[rustfmt::skip] use  a::{c ,  b} ;",
+        "use  a::{c ,  b} ;",
+        "",
+    ];
+    let pieces_stmts: &[&str] = &[
+        "let  a=f( 1 ,2 ) ;",
+        "#[rustfmt::skip]\n   let  b  =  [ 1 ,\n  2 ] ;",
+        "#[rustfmt::skip] #[allow( unused )]\n   let  c  =  [ 1 ,\n  2 ] ;",
+        "#[rustfmt::skip]\n  #[allow( unused )]\n   let  c2  =  [ 1 ,\n  2 ] ;",
+        "let  s=\"first line\n     second line\n  third\" ;",
+        "let  s2=\"wrapped \\\n     continued \\\n  end\" ;",
+        "#[rustfmt::skip]\n  fn  inner( ) {   \n   }",
+        "g( | x | {\n #[rustfmt::skip]\n  let  y  =  [ 1 ,\n 2 ] ;\n y } ) ;",
+        "$a ;",
+        "/* c \"\n  s \" */ h( ) ;",
+        "",
+    ];
+    let mut cases = vec![];
+    let n = if thorough { 40000 } else { 4000 };
+    for k in 0..n {
+        let stmt = rng.chance(1, 2);
+        let pool_ = if stmt { pieces_stmts } else { pieces_items };
+        let mut body = String::new();
+        for _ in 0..rng.range(1, 5) {
+            let pc = *rng.pick(pool_);
+            for l in pc.split('\n') {
+                body.push_str(&junk_indent(rng));
+                body.push_str(l);
+                body.push('\n');
+            }
+            if rng.chance(1, 4) { body.push('\n'); }
+        }
+        let block_body = rng.chance(1, 6);
+        let matcher = *rng.pick(&["( )", "( $a:expr )", "( $a:expr , $name:ident )"]);
+        if rng.chance(1, 3) { body = body.replacen("fn  a(", "fn  $name(", 1).replacen("let  a=", "let  $name=", 1); }
+        let matcher = if body.contains("$name") { "( $a:expr , $name:ident )" } else if body.contains("$a") { "( $a:expr )" } else { matcher };
+        let src = if block_body { format!("macro_rules!  m{} {{\n {} => {{{{\n{}}}}} ;\n}}\n", k, matcher, body) } else { format!("macro_rules!  m{} {{\n {} => {{\n{}}} ;\n}}\n", k, matcher, body) };
+        let mut cfg: Vec<(String, String)> = vec![];
+        if rng.chance(1, 2) { cfg.push(("format_strings".into(), "true".into())); }
+        if rng.chance(1, 2) { cfg.push(("style_edition".into(), "2024".into())); }
+        match rng.below(6) { 0 => cfg.push(("hard_tabs".into(), "true".into())), 1 => cfg.push(("tab_spaces".into(), "2".into())), 2 => cfg.push(("brace_style".into(), "AlwaysNextLine".into())), 3 => cfg.push(("max_width".into(), "60".into())), _ => {} }
+        cases.push(Case { src, cfg, what: format!("{} body{}", if stmt { "statement" } else { "item" }, if block_body { ", block" } else { "" }) });
+    }
+    let runs: Vec<Option<hs::MacroBodyRun>> = par_map(&cases, |c| {
+        let mut config = Config::default();
+        for (k, v) in &c.cfg { config.override_value(k, v); }
+        let (src, cfg2) = (c.src.clone(), config.clone());
+        std::panic::catch_unwind(move || hs::macro_body(&src, &cfg2)).unwrap_or(None)
+    });
+    for (c, r) in cases.iter().zip(runs.iter()) {
+        let r = match r { Some(r) => r, None => { o.count("mbody-corr:no-run(body does not parse / not formattable)"); continue; } };
+        let arm = match &r.arm { Some(a) => a, None => { o.count("mbody-corr:MacroBranch::rewrite failed (does not fit)"); continue; } };
+        let ranges = if r.ranges.is_empty() { "_".to_string() } else { r.ranges.iter().map(|(a, b)| format!("{}-{}", a, b)).collect::<Vec<_>>().join(",") };
+        let substs = if r.substs.is_empty() { "_".to_string() } else { r.substs.iter().map(|(old, new)| format!("{}:{}", enc_str(old), enc_str(new))).collect::<Vec<_>>().join(",") };
+        let fs = cfg_get(&c.cfg, "format_strings") == Some("true");
+        let ed = cfg_get(&c.cfg, "style_edition") == Some("2024");
+        let req = format!("skip.mbody {} {} {} {} {} {} {} {} {}", enc_str(&r.prefix), enc_str(&r.arm_indent), enc_str(&r.body_indent), bit(r.has_block_body), bit(fs), bit(ed), substs, ranges, enc_str(&r.snippet));
+        o.push("corr", "skip.mbody", req, enc_str(arm), format!("{} [{}]", c.what, cfg_text(&c.cfg)), !r.ranges.is_empty());
+        o.count(&format!("mbody-corr:{}:{}:ranges={}", if r.as_items { "items" } else { "code-block" }, if r.has_block_body { "block" } else { "plain" }, r.ranges.len().min(3)));
+        // the definition as visit_item gets it holds the arm
+        if let Some(d) = &r.definition {
+            if !d.contains(arm.as_str()) {
+                o.direct_failures.push(json!({"sig": "c04:macro-def-does-not-hold-the-arm", "what": "rewrite_macro_def's result does not contain what MacroBranch::rewrite returned for the first arm (harness assumption)", "src": c.src, "arm": arm, "definition": d}));
+            }
+        }
+    }
+}
+
+/// correspondence of `format_code_block` (lib.rs; a statement-shaped macro body goes through it) in two
+/// steps around the real formatter: the model wraps the code in `fn main() {` (`skip.enclose`), the real
+/// `format_snippet` formats the model's wrapped text, the model unwraps the result and shifts the ranges
+/// (`skip.unwrap`), and that must be what the real `format_code_block` returns for the code (snippet and
+/// non-formatted ranges), `None` included.
+fn part_codeblock_corr(o: &mut Outcome, rng: &mut Rng, thorough: bool) {
+    struct Case { code: String, cfg: Vec<(String, String)> }
+    let pieces: &[&str] = &[
+        "let  a=f( 1 ,2 ) ;",
+        "#[rustfmt::skip]\nlet  b  =  [ 1 ,\n\n  2 ] ;",
+        "#[rustfmt::skip]\nstruct  S {\n a:u32,   \n\n\n        b :u32 /* c */ }",
+        "#[rustfmt::skip]\n#[cfg(any(a,\n   b))]\nfn  inner( ) {\n\n   1 ;\n\n   }",
+        "let  s=\"first line\n     second line\n\n  third\" ;",
+        "let  s2=\"wrapped \\\n     continued \\\n  end\" ;",
+        "/* c \"\n  s \" */ h( ) ;",
+        "// \"quoted\n//    text\"\ng( ) ;",
+        "fn  k( ) {\n#[rustfmt::skip]\n   let  y  =  [ 1 ,\n\n 2 ] ;\n}",
+        "g( | x | {\n #[rustfmt::skip]\n  let  y  =  [ 1 ,\n 2 ] ;\n y } ) ;",
+        "x",
+        "}",
+        "",
+        "",
+    ];
+    let mut cases = vec![];
+    for _ in 0..(if thorough { 20000 } else { 2000 }) {
+        let mut code = String::new();
+        for _ in 0..rng.range(1, 5) {
+            for l in rng.pick(pieces).split('\n') {
+                if !l.is_empty() { code.push_str(&junk_indent(rng)); }
+                code.push_str(l);
+                code.push('\n');
+            }
+        }
+        if rng.chance(1, 2) { code.pop(); }
+        let mut cfg: Vec<(String, String)> = vec![];
+        if rng.chance(1, 2) { cfg.push(("format_strings".into(), "true".into())); }
+        if rng.chance(1, 2) { cfg.push(("style_edition".into(), "2024".into())); }
+        match rng.below(8) { 0 => cfg.push(("hard_tabs".into(), "true".into())), 1 => cfg.push(("tab_spaces".into(), "2".into())), 2 => cfg.push(("tab_spaces".into(), "8".into())), 3 => cfg.push(("brace_style".into(), "AlwaysNextLine".into())), 4 => cfg.push(("max_width".into(), "40".into())), _ => {} }
+        cases.push(Case { code, cfg });
+    }
+    let facts = |c: &Case| -> (bool, usize, usize, bool, bool) {
+        (cfg_get(&c.cfg, "hard_tabs") == Some("true"), cfg_get(&c.cfg, "tab_spaces").and_then(|v| v.parse().ok()).unwrap_or(4), cfg_get(&c.cfg, "max_width").and_then(|v| v.parse().ok()).unwrap_or(100), cfg_get(&c.cfg, "format_strings") == Some("true"), cfg_get(&c.cfg, "style_edition") == Some("2024"))
+    };
+    // 1. the model wraps
+    let reqs: Vec<String> = cases.iter().map(|c| { let (ht, ts, _, fs, ed) = facts(c); format!("skip.enclose {} {} {} {} {}", bit(ht), ts, bit(fs), bit(ed), enc_str(&c.code)) }).collect();
+    let wrapped: Vec<Option<String>> = run_model(&reqs, jobs()).iter().map(|a| dec_str(a)).collect();
+    // 2. the real formatter on the model's wrapped text; the real format_code_block on the code
+    let idx: Vec<usize> = (0..cases.len()).collect();
+    let runs: Vec<(Option<(String, Vec<(usize, usize)>)>, Option<(String, Vec<(usize, usize)>)>)> = par_map(&idx, |i| {
+        let c = &cases[*i];
+        let mut config = Config::default();
+        for (k, v) in &c.cfg { config.override_value(k, v); }
+        let mut unix = config.clone();
+        unix.override_value("newline_style", "Unix");
+        let w = wrapped[*i].clone();
+        let code = c.code.clone();
+        let inner = match w { Some(w) => std::panic::catch_unwind(move || hs::format_snippet_raw(&w, &unix, true)).unwrap_or(None), None => None };
+        let real = std::panic::catch_unwind(move || hs::format_code_block_raw(&code, &config, true)).unwrap_or(None);
+        (inner, real)
+    });
+    let enc_ranges = |rs: &[(usize, usize)]| if rs.is_empty() { "_".to_string() } else { rs.iter().map(|(a, b)| format!("{}-{}", a, b)).collect::<Vec<_>>().join(",") };
+    for ((c, w), (inner, real)) in cases.iter().zip(wrapped.iter()).zip(runs.iter()) {
+        let (ht, ts, mw, fs, ed) = facts(c);
+        if w.is_none() {
+            o.direct_failures.push(json!({"sig": "c04:skip.enclose-no-answer", "what": "the model gave no wrapped text", "code": c.code}));
+            continue;
+        }
+        match inner {
+            None => {
+                // the wrapped text cannot be formatted: format_code_block gives up as well
+                o.count("codeblock:wrapped-text-not-formatted");
+                o.direct_evals += 1;
+                if real.is_some() {
+                    o.flushed.disagreements.push(json!({"op": "skip.enclose", "what": "format_snippet fails on the model's wrapped text while format_code_block succeeds on the code: the model's wrapper is not the code's", "code": c.code, "wrapped": w, "config": cfg_text(&c.cfg)}));
+                }
+            }
+            Some((formatted, ranges)) => {
+                let req = format!("skip.unwrap {} {} {} {} {} {} {}", bit(ht), ts, mw, bit(fs), bit(ed), enc_ranges(ranges), enc_str(formatted));
+                let expect = match real { Some((sn, rs)) => format!("{}:{}", enc_str(sn), enc_ranges(rs)), None => "none".to_string() };
+                o.push("corr", "skip.unwrap", req, expect, format!("format_code_block [{}]", cfg_text(&c.cfg)), !ranges.is_empty());
+                o.count(&format!("codeblock:{}:ranges={}", if real.is_some() { "some" } else { "none" }, ranges.len().min(3)));
+            }
         }
     }
 }
@@ -1394,6 +1853,78 @@ fn attribute_program(rng: &mut Rng, counter: &mut usize, thorough: bool) -> Opti
     Some(ScopedProgram { src, target, control, sibling, in_scope, how, chain: chain.iter().map(|c| CONTAINERS[*c].0).collect(), cfg, model_req })
 }
 
+/// `#[rustfmt::skip::macros(..)]` on one of three nested items: calls of the named macro before the outermost
+/// item, inside each level before and after the next one, and after the outermost item.  A call is kept as
+/// written iff it lies inside the annotated item (the name reaches inner modules / impls / fns and is gone
+/// after the item: save / restore of visit_item, theorems skipCtx_monotone, skipCtx_siblings).
+struct NestProgram {
+    src: String,
+    /// (position, call text, lies inside the annotated item)
+    calls: Vec<(&'static str, String, bool)>,
+    how: String,
+    list: Vec<String>,
+    name: String,
+    present: bool,
+    cfg: Vec<(String, String)>,
+}
+
+fn names_nesting_program(rng: &mut Rng, counter: &mut usize, thorough: bool) -> NestProgram {
+    // (opening texts of the three levels, which levels are items that visit_item feeds the context with)
+    let shapes: &[([&str; 3], [bool; 3])] = &[
+        (["mod  a1  {", "mod  a2  {", "fn  a3( ) {"], [true, true, true]),
+        (["mod  a1  {", "fn  a2( ) {", "fn  a3( ) {"], [true, true, true]),
+        (["mod  a1  {", "impl  A2 {", "fn  a3( &self ) {"], [true, true, false]),
+        (["fn  a1( ) {", "mod  a2  {", "fn  a3( ) {"], [true, true, true]),
+        (["mod  a1  {", "trait  A2 {", "fn  a3( &self ) {"], [true, true, false]),
+        (["fn  a1( ) {", "fn  a2( ) {", "let  a3=| |  {"], [true, true, false]),
+        (["impl  A1 {", "fn  a2( &self ) {", "fn  a3( ) {"], [true, false, true]),
+        (["mod  a1  {", "mod  a2  {", "mod  a3  {"], [true, true, true]),
+        (["fn  a1( ) {", "impl  A2 {", "fn  a3( &self ) {"], [true, true, false]),
+    ];
+    let (opens, annotatable) = *rng.pick(shapes);
+    let levels: Vec<usize> = (0..3).filter(|l| annotatable[*l]).collect();
+    let k = *rng.pick(&levels); // the annotated level, 0-based
+    let name = rng.pick(&["mac", "html", "my_macro", "println"]).to_string();
+    let others = ["other", "ctrl2", "x"];
+    let mut list: Vec<String> = (0..rng.below(3)).map(|_| rng.pick(&others).to_string()).collect();
+    let present = rng.chance(3, 4);
+    if present {
+        let at = rng.below(list.len() + 1);
+        list.insert(at, name.clone());
+    }
+    let attr = match rng.below(4) {
+        0 => format!("#[rustfmt::skip::macros({})]", list.join(" ,")),
+        1 => format!("#[allow( unused )]\n{}#[rustfmt::skip::macros({})]", junk_indent(rng), list.join(", ")),
+        _ => format!("#[rustfmt::skip::macros({})]", list.join(", ")),
+    };
+    let mut calls = vec![];
+    let mut call = |rng: &mut Rng, pos: &'static str, inside: bool, src: &mut String| {
+        *counter += 1;
+        let t = format!("{}!( 1 ,zq{}x ,  3 )", name, counter);
+        src.push_str(&format!("{}{} ;\n", junk_indent(rng), t));
+        calls.push((pos, t, inside));
+    };
+    let mut src = String::new();
+    call(rng, "before the outermost item", false, &mut src);
+    let positions_a = ["inside level 1, before level 2", "inside level 2, before level 3", "inside level 3"];
+    let positions_b = ["", "inside level 2, after level 3", "inside level 1, after level 2"];
+    for l in 0..3 {
+        if l == k { src.push_str(&format!("{}{}\n", junk_indent(rng), attr)); }
+        src.push_str(&format!("{}{}\n", junk_indent(rng), opens[l]));
+        call(rng, positions_a[l], l >= k, &mut src);
+    }
+    for l in (0..3).rev() {
+        let closer = if opens[l].starts_with("let") { "} ;" } else { "}" };
+        src.push_str(&format!("{}{}\n", junk_indent(rng), closer));
+        if l > 0 { call(rng, positions_b[3 - l], l - 1 >= k, &mut src); }
+    }
+    call(rng, "after the outermost item", false, &mut src);
+    let mut cfg = e2e_config(rng, thorough);
+    cfg.retain(|(k, _)| k != "format_macro_bodies" && k != "format_macro_matchers" && k != "skip_macro_invocations");
+    wide_enough(rng, &mut cfg, thorough);
+    NestProgram { src, calls, how: format!("{:?}, attribute on level {}", opens, k + 1), list, name, present, cfg }
+}
+
 fn part_e2e_scoped(o: &mut Outcome, rng: &mut Rng, thorough: bool) {
     let mut counter = 100000usize;
     let mut progs: Vec<(&'static str, ScopedProgram)> = vec![];
@@ -1445,6 +1976,45 @@ fn part_e2e_scoped(o: &mut Outcome, rng: &mut Rng, thorough: bool) {
             o.direct_evals += 1;
             if count_occ(&out, sib) != 0 || count_occ(&out, &sib.replace("sib", "pre")) != 0 {
                 o.direct_failures.push(json!({"sig": format!("c04:skip::{}-leaks-to-sibling", fam), "what": "a name brought into scope by an item's attribute protects a sibling of that item (the scope must end with the item)", "sibling": sib, "config": cfg_text(&pr.cfg), "src": pr.src, "out": r.out}));
+            }
+        }
+    }
+    // names at three nesting levels
+    let mut nests = vec![];
+    for _ in 0..(if thorough { 20000 } else { 1500 }) {
+        nests.push(names_nesting_program(rng, &mut counter, thorough));
+    }
+    let jobs_n: Vec<Job> = nests.iter().map(|p| Job { src: p.src.clone(), cfg: p.cfg.clone(), file_lines: None }).collect();
+    let res_n = pool::run_jobs(&jobs_n, jobs(), Duration::from_secs(if thorough { 20 } else { 10 }));
+    for (pr, r) in nests.iter().zip(res_n.iter()) {
+        match &r.status {
+            Status::Timeout => { o.count("nest:timeout"); continue; }
+            Status::Ok => {}
+            other => {
+                o.direct_failures.push(json!({"sig": "c04:e2e-run-failed:skip::macros-nesting", "what": format!("the formatter did not finish on a generated program: {:?}", other), "src": pr.src, "config": cfg_text(&pr.cfg)}));
+                continue;
+            }
+        }
+        if r.flags[1] || r.out.is_empty() {
+            o.count("nest:not-parsed");
+            o.sample(json!({"not_parsed": pr.src}));
+            continue;
+        }
+        let out = canon_newlines(&r.out, &pr.cfg);
+        o.count(&format!("nest:{}:present={}", pr.how.rsplit(", ").next().unwrap_or(""), pr.present as u8));
+        for (pos, text, in_item) in &pr.calls {
+            let occ = count_occ(&out, text);
+            o.direct_evals += 1;
+            o.direct_distinct += 1;
+            // the model decides from the position: inside the annotated item the context was extended with the list
+            let req = if *in_item { format!("skip.ctx e:{} {}", names_enc(&pr.list), pr.name) } else { format!("skip.ctx _ {}", pr.name) };
+            o.push("corr", "skip.ctx(real run, nesting)", req, bit(occ == 1), format!("{} - {} [{}]", pr.how, pos, cfg_text(&pr.cfg)), true);
+            let inside = &(*in_item && pr.present);
+            if *inside && occ != 1 {
+                o.direct_failures.push(json!({"sig": "c04:skip::macros-not-honoured:nesting", "what": format!("a call of a macro named by rustfmt::skip::macros on an enclosing item occurs {} times in the output ({}; {})", occ, pr.how, pos), "target": text, "config": cfg_text(&pr.cfg), "src": pr.src, "out": r.out}));
+            }
+            if !*inside && occ != 0 {
+                o.direct_failures.push(json!({"sig": if pos.contains("after") { "c04:skip::macros-leaks-after-the-item" } else { "c04:skip::macros-leaks-outside-the-item" }, "what": format!("a call of the macro OUTSIDE the annotated item was left as written ({}; {}): the name must be in scope inside the item only", pr.how, pos), "target": text, "config": cfg_text(&pr.cfg), "src": pr.src, "out": r.out}));
             }
         }
     }
@@ -1650,6 +2220,71 @@ fn part_files(o: &mut Outcome, rng: &mut Rng, thorough: bool, out: &Path) {
             o.direct_failures.push(json!({"sig": format!("c04:opted-out-file-reported:{}:{}", mode, row.bits10()), "what": problems.join("; "), "row": format!("{:?}", row), "toml": row.toml(), "stdout": r.stdout, "stderr": r.stderr}));
         }
     }
+    // 1b. byte-exactness of an opted-out file whatever its encoding details: BOM, CRLF, both, no final
+    //     newline, trailing blank lines and blanks - one opt-out reason at a time, the file itself or a child
+    //     module, in every emit mode (and --backup): the bytes on disk stay, exit 0, nothing is reported
+    {
+        let vary = |text: &str, v: usize| -> String {
+            match v {
+                0 => format!("\u{feff}{}", text),
+                1 => text.replace('\n', "\r\n"),
+                2 => format!("\u{feff}{}", text.replace('\n', "\r\n")),
+                3 => text.trim_end_matches('\n').to_string(),
+                4 => format!("{}\n\n   \n\t", text),
+                _ => text.replace("fn  bad_f", "fn  bad_\u{e9}\u{4e16}"),
+            }
+        };
+        let names = ["bom", "crlf", "bom+crlf", "no-final-newline", "trailing-blank-lines", "non-ascii"];
+        let base = OptOut { inner_skip: false, disable_all: false, ignored: false, generated: false, format_generated: true, stdin: false, skip_children: false, is_main: true, main_ignored: false };
+        let mut reasons: Vec<(&str, OptOut)> = vec![];
+        for is_main in [true, false] {
+            reasons.push(("inner-skip", OptOut { inner_skip: true, is_main, ..base }));
+            reasons.push(("disable-all", OptOut { disable_all: true, is_main, ..base }));
+            reasons.push(("ignored", OptOut { ignored: true, main_ignored: is_main, is_main, ..base }));
+            reasons.push(("generated", OptOut { generated: true, format_generated: false, is_main, ..base }));
+        }
+        reasons.push(("skip-children", OptOut { skip_children: true, is_main: false, ..base }));
+        let modes: Vec<(&str, Vec<&str>)> = vec![("files", vec![]), ("check", vec!["--check"]), ("json", vec!["--emit", "json"]), ("checkstyle", vec!["--emit", "checkstyle"]), ("stdout", vec!["--emit", "stdout"]), ("backup", vec!["--backup"]), ("check-l", vec!["--check", "-l"])];
+        let mut runs: Vec<(String, &'static str, String, String, Scenario)> = vec![];
+        for (rname, row) in &reasons {
+            for v in 0..names.len() {
+                let text = vary(&row.text(), v);
+                for (mname, args) in &modes {
+                    let mut sc = row.scenario(args);
+                    for f in sc.files.iter_mut() {
+                        if f.0 == row.target() { f.1 = text.clone(); }
+                    }
+                    // the backup file, if any is written, shows up here
+                    sc.files.push((format!("{}.bk", row.target().trim_end_matches(".rs")), String::new()));
+                    runs.push((format!("{}:{}:{}", rname, if row.is_main { "main" } else { "child" }, names[v]), row.target(), text.clone(), mname.to_string(), sc));
+                }
+            }
+        }
+        let ridx: Vec<usize> = (0..runs.len()).collect();
+        let rran: Vec<Ran> = par_map(&ridx, |k| run_scenario(&root, 150000 + *k, &runs[*k].4));
+        for ((what, target, text, mode, sc), r) in runs.iter().zip(rran.iter()) {
+            if r.timed_out { o.count("file:timeout"); continue; }
+            let after = r.files_after.iter().find(|(n, _)| n == target).and_then(|(_, t)| t.clone()).unwrap_or_default();
+            let bk = r.files_after.iter().find(|(n, _)| n.ends_with(".bk")).and_then(|(_, t)| t.clone()).unwrap_or_default();
+            let mut problems = vec![];
+            if &after != text { problems.push("the opted-out file's bytes changed".to_string()); }
+            if !bk.is_empty() { problems.push("a backup of the opted-out file was written".to_string()); }
+            if r.code != Some(0) { problems.push(format!("exit {:?}", r.code)); }
+            match mode.as_str() {
+                "check" | "check-l" => if !r.stdout.trim().is_empty() { problems.push("--check printed something".to_string()); },
+                "json" => if r.stdout.trim() != "[]" { problems.push("the json report is not []".to_string()); },
+                "checkstyle" => if r.stdout.contains("bad_") { problems.push("the checkstyle report has an error inside the opted-out file".to_string()); },
+                "stdout" => if r.stdout.contains("bad_") { problems.push("--emit stdout printed the opted-out file".to_string()); },
+                _ => {}
+            }
+            o.direct_evals += 1;
+            o.direct_distinct += 1;
+            o.count(&format!("file:optout-bytes:{}:{}", mode, if problems.is_empty() { "clean" } else { "touched" }));
+            if !problems.is_empty() {
+                o.direct_failures.push(json!({"sig": format!("c04:opted-out-file-bytes:{}:{}", mode, what), "what": problems.join("; "), "case": what, "toml": sc.toml, "args": sc.args, "before": text, "after": after, "stdout": r.stdout, "stderr": r.stderr}));
+            }
+        }
+    }
     // 2. out-of-line modules: a skip attribute on the declaration (or at the top of the module's file)
     //    leaves the file untouched while the declaring file is formatted; files the skipped module
     //    declares are not visited either
@@ -1835,13 +2470,61 @@ fn part_probes(o: &mut Outcome, out: &Path) {
         let r2 = fmt(&src2, &[]);
         o.probes.push(json!({"id": "C04-macro-def-fallback", "fails": r.status != Status::Ok || count_occ(&r.out, &node) != 1, "what": "a #[rustfmt::skip] item with trailing blanks inside a macro_rules! body that cannot be laid out loses its trailing blanks (macros.rs rewrite_macro_def falls back to remove_trailing_white_spaces(snippet) for the whole definition)", "detail": {"src": src, "out": r.out, "control_kept_when_the_body_is_laid_out": count_occ(&r2.out, node2) == 1}}));
     }
+    // a skipped STATEMENT in a macro body with attribute lines after the first: visit_stmt hands
+    // push_skipped_with_span the statement without its attributes as main_span, the recorded range starts
+    // at min(last attribute line + 1, statement line), and MacroBranch::rewrite indents the attribute lines
+    // in between (again on every run).  The first attribute line is meant to be indented
+    // (tests/target/issue-3105.rs pins it), so passing stmt.span() is not a fix the suite accepts.
+    {
+        let full = "#[rustfmt::skip]\n  #[cfg(any(feature = \"small-tables\",\n                  feature = \"tiny-tables\"))]\n     #[allow(  unused  )]\n        let  zqk1  =  [1, 2,\n             3, 4];";
+        let src = format!("macro_rules! m {{\n    ($a:expr) => {{\n        let  a=1 ;\n            {}\n        let  b=2 ;\n    }};\n}}\n", full);
+        let r = fmt(&src, &[]);
+        let r2 = fmt(&r.out, &[]);
+        // control: with every attribute on the first line the statement is kept
+        let full_c = "#[rustfmt::skip] #[allow(  unused  )]\n        let  zqk1  =  [1, 2,\n             3, 4];";
+        let src_c = format!("macro_rules! m {{\n    ($a:expr) => {{\n        let  a=1 ;\n            {}\n        let  b=2 ;\n    }};\n}}\n", full_c);
+        let rc = fmt(&src_c, &[]);
+        o.probes.push(json!({"id": "C04-macro-body-stmt-attrs", "fails": r.status != Status::Ok || count_occ(&r.out, full) != 1, "what": "a #[rustfmt::skip] statement directly in a macro_rules! body with further attribute lines (a second attribute, a multi-line attribute) gets those lines re-indented, by the body indentation again on every run: the recorded skipped range of a statement starts below its attribute lines and MacroBranch::rewrite indents every line outside a range", "detail": {"src": src, "out": r.out, "out_second_pass": r2.out, "second_pass_moves_them_again": r2.out != r.out, "control_all_attributes_on_the_first_line_kept": count_occ(&rc.out, full_c) == 1}}));
+    }
+    // a skipped node inside an impl / trait body, a closure or an inner block inside a macro body: those
+    // are formatted by nested visitors whose skipped ranges are dropped (impl / trait) or appended
+    // unshifted (blocks), so the continuation lines of the node count as formatted code and are indented
+    {
+        let cases: Vec<(&str, String, &str)> = vec![
+            ("impl method", "impl  S {\n            fn  a( ) { }\n            #[rustfmt::skip]\n            fn  zqk2( ) {\n  let  x  =  1 ;\n            }\n        }".into(), "fn  zqk2( ) {\n  let  x  =  1 ;\n            }"),
+            ("trait method", "trait  T {\n            #[rustfmt::skip]\n            fn  zqk2( ) {\n  let  x  =  1 ;\n            }\n        }".into(), "fn  zqk2( ) {\n  let  x  =  1 ;\n            }"),
+            ("statement in a closure body", "fn  g( ) {\n            let  c  =  || {\n            #[rustfmt::skip]\n            let  zqk2  =  [ 1 ,\n  2 ] ;\n            } ;\n        }".into(), "let  zqk2  =  [ 1 ,\n  2 ] ;"),
+            // control: the same statement directly in the fn's body (the same visitor) is kept
+            ("control: statement in the fn body", "fn  g( ) {\n            #[rustfmt::skip]\n            let  zqk2  =  [ 1 ,\n  2 ] ;\n        }".into(), "let  zqk2  =  [ 1 ,\n  2 ] ;"),
+        ];
+        let mut detail = vec![];
+        let mut fails = false;
+        for (what, body, node) in &cases {
+            let src = format!("macro_rules! m {{\n    ($a:expr) => {{\n        {}\n    }};\n}}\n", body);
+            let r = fmt(&src, &[]);
+            let kept = r.status == Status::Ok && count_occ(&r.out, node) == 1;
+            if what.starts_with("control") {
+                if !kept {
+                    o.direct_failures.push(json!({"sig": "c04:skipped-statement-in-fn-in-macro-body-not-verbatim", "what": "a skipped statement directly in the body of a fn of a macro body is not kept", "src": src, "out": r.out}));
+                }
+            } else {
+                fails |= !kept;
+            }
+            detail.push(json!({"case": what, "kept": kept, "src": src, "out": r.out}));
+        }
+        o.probes.push(json!({"id": "C04-macro-body-nested-visitor", "fails": fails, "what": "a #[rustfmt::skip] node inside an impl or trait body, a closure or an inner block that sits in a macro_rules! body gets its lines after the first re-indented (again on every run): nested visitors' skipped ranges are dropped (format_impl, format_trait) or merged unshifted (rewrite_block_inner), and MacroBranch::rewrite indents every line outside a recorded range", "detail": detail}));
+    }
     // standard input with an inner skip attribute is echoed from rustc's normalised copy of the text
     {
         let input = "#![rustfmt::skip]\r\nfn  f( ) { }\r\n";
         let r = run_scenario(&root, 20, &Scenario { files: vec![], toml: String::new(), args: vec![], stdin: Some(input.into()) });
         let r2 = run_scenario(&root, 21, &Scenario { files: vec![], toml: "disable_all_formatting = true\n".into(), args: vec![], stdin: Some(input.into()) });
         let r3 = run_scenario(&root, 22, &Scenario { files: vec![], toml: String::new(), args: vec!["--config".into(), "newline_style=Windows".into()], stdin: Some(input.into()) });
-        o.probes.push(json!({"id": "C04-stdin-skip-crlf", "fails": r.stdout != input, "what": "standard input that opts out with #![rustfmt::skip] and has CRLF line endings is echoed with LF line endings (echo_back_stdin prints the source map's normalised text, before any newline_style handling)", "detail": {"input": input, "stdout": r.stdout, "exit": r.code, "with_disable_all_formatting_stdout_equals_input": r2.stdout == input, "with_newline_style_Windows_stdout_equals_input": r3.stdout == input}}));
+        // the same copy has lost a byte order mark
+        let input_bom = "\u{feff}#![rustfmt::skip]\nfn  f( ) { }\n";
+        let rb = run_scenario(&root, 23, &Scenario { files: vec![], toml: String::new(), args: vec![], stdin: Some(input_bom.into()) });
+        let rb2 = run_scenario(&root, 24, &Scenario { files: vec![], toml: "disable_all_formatting = true\n".into(), args: vec![], stdin: Some(input_bom.into()) });
+        o.probes.push(json!({"id": "C04-stdin-skip-crlf", "fails": r.stdout != input || rb.stdout != input_bom, "what": "standard input that opts out with #![rustfmt::skip] and has CRLF line endings is echoed with LF line endings, and one that starts with a byte order mark is echoed without it (echo_back_stdin prints the source map's normalised text, before any newline_style handling)", "detail": {"input": input, "stdout": r.stdout, "exit": r.code, "with_disable_all_formatting_stdout_equals_input": r2.stdout == input, "with_newline_style_Windows_stdout_equals_input": r3.stdout == input, "bom_input_echoed_with_its_bom": rb.stdout == input_bom, "bom_input_with_disable_all_formatting_echoed_with_its_bom": rb2.stdout == input_bom}}));
     }
     // a skipped node in a file with CRLF line endings under the default newline_style (consequence of
     // F5 / C08: Auto looks at the normalised text, so the whole file, the verbatim copy included, gets LF)
@@ -1891,9 +2574,13 @@ pub fn run(tier: &str, seed: u64, out: &Path) -> i32 {
     if want("gen") { part_generated_trim(&mut o, &mut rng.fork(), thorough); } else { rng.fork(); }
     if want("buffer") { part_buffer(&mut o, &mut rng.fork(), thorough); } else { rng.fork(); }
     if want("nodes") { part_e2e_nodes(&mut o, &mut rng.fork(), thorough); } else { rng.fork(); }
+    if want("mbody") { part_e2e_macro_bodies(&mut o, &mut rng.fork(), thorough); } else { rng.fork(); }
+    if want("mbodycorr") { part_mbody_corr(&mut o, &mut rng.fork(), thorough); } else { rng.fork(); }
+    if want("codeblock") { part_codeblock_corr(&mut o, &mut rng.fork(), thorough); } else { rng.fork(); }
     if want("scoped") { part_e2e_scoped(&mut o, &mut rng.fork(), thorough); } else { rng.fork(); }
     if want("files") { part_files(&mut o, &mut rng.fork(), thorough, out); } else { rng.fork(); }
     if want("probes") { part_probes(&mut o, out); }
+    o.notes.push("items and statements: the text from the first outer attribute / doc comment of the skipped node to its last token must occur exactly once (visit_item and visit_stmt copy that span as it is written); skip-marked nodes directly inside macro_rules! bodies are formatted twice and must survive both passes; generated are only nodes that the body formatter's top-level visitor reaches, and statements in macro bodies carry all their attributes on the first line (probes C04-macro-body-nested-visitor, C04-macro-body-stmt-attrs)".into());
     o.notes.push("the node of a skip attribute = source text from the first token after the node's outer attributes to its last token; separating commas of fields / variants / arms / arguments are list punctuation and not part of it; every node text carries an identifier that occurs nowhere else, so the oracle is: the text occurs exactly once in the output, after the preceding neighbour's identifier and before the following one's".into());
     o.notes.push("not generated, by construction of rustc's AST: an attribute written before `a = b` or `a + b` belongs to the leftmost operand only (`#[rustfmt::skip] x  =  1+2 ;` is reformatted except for `x`); `::rustfmt::skip` (leading `::`) is not a spelling the code or the property names (model and code agree: not accepted)".into());
     o.notes.push("outputs are compared modulo line endings when newline_style=Windows (whole-text conversion after formatting, C08); node texts are LF-only; the CRLF cases are the enumerated probes C04-crlf-node and C04-stdin-skip-crlf".into());
